@@ -143,8 +143,9 @@ func (s *SchedCheck) RunGenerated(c *spec.Case, env *run.Env) run.CaseResult {
 	if s.NewMonitor != nil {
 		monitor = s.NewMonitor()
 		mon.Cur = monitor
+		mon.DRAEnabled = c.Objects.HasDRA()
 		hooks = monitor.Hooks()
-		defer func() { mon.Cur = nil }()
+		defer func() { mon.Cur, mon.DRAEnabled = nil, false }()
 	}
 	rng := gen.NewRand(c.Seed, c.Index, 2)
 	r, err := sched.NewRunner(st, c, rng, hooks)
